@@ -814,7 +814,14 @@ class Interp(object):
     def stmt_Expr(self, s, env):
         if isinstance(s.value, pyast.Constant):
             return
-        self.eval(s.value, env)
+        v = self.eval(s.value, env)
+        # a comprehension over a symbolic list that is evaluated for its side effects ([self.visit(x) for x in xs] as a statement): the element
+        # expression is executed for one arbitrary element (the list itself is discarded), like one arbitrary iteration of a for loop
+        if isinstance(v, Obj):
+            d = self.ctx.data(v)
+            if d.kind == 'list' and d.symlen is not None and 'map_fn' in d.extra and isinstance(s.value, (pyast.ListComp, pyast.GeneratorExp, pyast.SetComp)):
+                if self.ctx.branch(d.symlen >= 1):
+                    self.list_elem(v, ('g', 'stmt@%d:%d' % (s.lineno, s.col_offset)))
 
     def stmt_Pass(self, s, env):
         pass
